@@ -118,6 +118,10 @@ def run_case(spec):
         if drv.all_delivered():
             return True
         return any(k.endswith("-err") or k == "closed" for k in drv.a.kinds() + drv.b.kinds()) and world.step > 150
+    if rng.random() < 0.3:
+        # one application gives up early: the remaining (possibly tampered) messages arrive while it is closing
+        early = rng.choice([drv.a, drv.b])
+        sch.faults.append((rng.randint(20, 200), early.close, "early close " + early.name))
     sch.run(700, until=settled)
     sch.drain(40.0, 3000, until=settled)
     drv.a.close()
@@ -174,6 +178,8 @@ def run_case(spec):
             after = [k for k in kinds[kinds.index("closed"):] if k in ("msg", "versions", "verifier", "key", "code")]
             if after:
                 viol.append({"key": "C02/delivery-after-close/" + after[0], "msg": "%s: %s" % (rx.name, kinds), "witness": wit(rx)})
+        if len(rx.close_results) > 1 and rx.api == "delegate":
+            viol.append({"key": "C02/closed-notified-twice", "msg": "%s: wormhole_closed called %d times: %s" % (rx.name, len(rx.close_results), rx.close_results), "witness": wit(rx)})
         if not rx.closed:
             viol.append({"key": "C02/close-hangs", "msg": "%s never closed (denial of service is allowed, a hanging close() is not)" % rx.name,
                          "witness": wit(rx)})
